@@ -10,7 +10,10 @@ CLAIMED = {
     "C09": (
         "TLA+ spec CondIncl (reference conditional stack vs. the code's stack-less skip machine), TLC exhaustive "
         "refinement check; every closed program replayed through parse_file -E (and gcc -E for spec sanity); "
-        "H-dir hook traces of replay runs, shipped tests and stub headers validated against CondInclTrace",
+        "H-dir hook traces of replay runs, shipped tests and stub headers validated against CondInclTrace; spec Preproc "
+        "(the COMPOSED preprocessor: one logical line per step over main + two headers; macro table x conditional "
+        "stacks per file x include stack x once-only set x __LINE__/__FILE__/computed includes x physical-line shapes) "
+        "with every complete behaviour replayed through parse_file -E and gcc -E",
         "TLC proves, for every well-nested directive sequence within the bound, that the modelled skip machine "
         "keeps/evaluates/acts on exactly what a conforming preprocessor does; conformance of the code to that "
         "machine is shown in both directions (exhaustive replay of the enumerated programs; trace validation of "
@@ -96,7 +99,10 @@ CLAIMED = {
         "Closed / WrappersFirst / LinksConsistent / UniqueNames invariants), TLC exhaustive; every real database "
         "produced by interrogate over a header x back-end x naming-option matrix dumped by raw index and evaluated "
         "against the same invariants by TLC (IdbState); extern-C redeclarations synthesised from the database alone "
-        "compiled in one TU with the generated -c code",
+        "compiled in one TU with the generated -c code; builder side: TLA+ spec IdbBuild (every mutation of the "
+        "database under construction is an action: NextIndex / Add* / Update* / RemoveType / Remap / Done; promised "
+        "indices, closure at Done, five deliberately broken protocols must violate), H-idbbuild hook traces of every "
+        "interrogate run validated by IdbBuildTrace and cross-checked index by index against the file written",
         "The invariants are preserved by every modelled action for all small databases, and hold on each of the 558 "
         "real databases of the quick tier; the code/database agreement is decided by g++ (a signature mismatch is a "
         "compile error) and nm.",
@@ -133,7 +139,9 @@ CLAIMED = {
         "TLA+ specs CppLibCalls/WrapC (signatures over argument kinds with a defined meaning Sem shared by the spec and "
         "the generated C++ bodies; wrapper variants per omitted default; object heap), TLC exhaustive single-call "
         "behaviours + simulated call sequences; replay through compiled -c and -python wrappers driven only by the "
-        "database (ctypes prototypes from recorded types), compared step by step with the spec and with a native run",
+        "database (ctypes prototypes from recorded types), compared step by step with the spec and with a native run; "
+        "spec WrapCScope adds namespaces / nested classes and enums / same-named classes in two namespaces, 4-6 "
+        "parameters with 0-3 trailing defaults of every spelling, and up/downcasts under multiple and virtual inheritance",
         "Every signature of the alphabet with boundary argument tuples, and call sequences in which every wrapper "
         "variant is called at least twice on different objects, are executed through the real generated wrappers in "
         "12 option sets; return values, object states and the log of the instrumented bodies must equal Sem after "
@@ -146,7 +154,9 @@ CLAIMED = {
         "TLA+ specs PyDispatch (overload sets built one overload per step; reference = C++ overload resolution on "
         "corresponding argument categories; mechanism = map_sets / collapse_default_remaps / RemapCompareLess order / "
         "per-parameter checks transcribed as a step machine) and PyObjects (ownership and constness of wrapped "
-        "instances); TLC refinement invariant over all call tuples; replay on imported -python-native extension "
+        "instances) and PySeqItem (Python's index rule for o[i] / o[i] = v against CPython's normalisation + the generated "
+        "bounds test; histories replayed on size()/operator[] and MAKE_SEQ_PROPERTY classes with guard cells); TLC "
+        "refinement invariant over all call tuples; replay on imported -python-native extension "
         "modules built against shims (vf/pymod.py), every call judged on overload log, values, exception, refcounts, "
         "ownership bits; g++ validates the reference",
         "TLC checks, for every overload set and call tuple within the bound, that the transcribed dispatch mechanism "
